@@ -68,6 +68,9 @@ fn merge(into: &mut RunResult, seg: &RunResult) {
     if into.harness_error.is_none() {
         into.harness_error = seg.harness_error.clone();
     }
+    if seg.extra.is_some() {
+        into.extra = seg.extra.clone();
+    }
 }
 
 fn run_scenario(sc: &Scenario, scenario_path: Option<&str>) -> RunResult {
